@@ -188,6 +188,27 @@ class World:
         shutil.rmtree(self.root, ignore_errors=True)
 
 
+def _drain_pty(master, proc, sink):
+    """Copy what the child writes to its terminal into sink until the child has exited and the terminal is empty."""
+    import select  # pylint: disable=import-outside-toplevel
+
+    try:
+        while True:
+            r, _, _ = select.select([master], [], [], 0.05)
+            if r:
+                try:
+                    data = os.read(master, 65536)
+                except OSError:
+                    break
+                if not data:
+                    break
+                sink.write(data.replace(b"\r\n", b"\n"))
+            elif proc.poll() is not None:
+                break
+    finally:
+        sink.flush()
+
+
 def build_argv(opts, config_arg, input_arg):
     argv = []
     if opts.get("method"):
@@ -321,9 +342,19 @@ def run(w, world_files, opts, host=None, faults=None, crash_at=None, dump=False,
     before = snapshot(w.world)
     t0 = time.monotonic()
     timed_out = False
+    master = slave = None
+    if host.get("tty"):
+        # an interactive terminal on stdin and stdout (isatty() is true): pagers, prompts, colours and progress bars live behind that test
+        import pty  # pylint: disable=import-outside-toplevel
+
+        master, slave = pty.openpty()
+        env.setdefault("TERM", "xterm-256color")
     with open(os.path.join(rundir, "stdout"), "wb") as so, open(os.path.join(rundir, "stderr"), "wb") as se:
-        proc = subprocess.Popen(cmd, cwd=cwd, env=env, stdin=subprocess.DEVNULL, stdout=so, stderr=se, start_new_session=True,
-                                umask=host["umask"] if host.get("umask") is not None else -1)  # pylint: disable=consider-using-with
+        proc = subprocess.Popen(cmd, cwd=cwd, env=env, stdin=slave if slave is not None else subprocess.DEVNULL, stdout=slave if slave is not None else so, stderr=se,
+                                start_new_session=True, umask=host["umask"] if host.get("umask") is not None else -1)  # pylint: disable=consider-using-with
+        if slave is not None:
+            os.close(slave)
+            _drain_pty(master, proc, so)
         # the wall budget of a run grows with the size of its input (about 50 bytes of ODS per row; a 3 000-row world takes 10-15 s on
         # an idle core, several times that under strace on a loaded machine): 60 s for ordinary worlds, up to 10 minutes for huge ones
         budget = RUN_TIMEOUT
@@ -341,6 +372,11 @@ def run(w, world_files, opts, host=None, faults=None, crash_at=None, dump=False,
             except OSError:
                 pass
             rc = proc.wait()
+    if master is not None:
+        try:
+            os.close(master)
+        except OSError:
+            pass
     wall = time.monotonic() - t0
     after = snapshot(w.world)
     with open(os.path.join(rundir, "stdout"), "rb") as fh:
